@@ -20,14 +20,16 @@ from .. import tlaparse, tlc
 from . import common
 
 SHELLS = ["S1", "S2", "S3"]
-ARRAYS = ["PTS", "DM", "CHG", "NUCC", "ORG", "ORD", "TRF", "MCOORD"]
+ARRAYS = ["PTS", "PT1", "DM", "CHG", "NUCC", "ORG", "ORD", "TRF", "MCOORD"]
 LISTS = ["CT"]
 B = ("S1", "S2", "S3")
 FUNCS = {
     "overlap": B, "overlap_screened": B, "overlap_asym": B, "kinetic": B, "momentum": B, "angmom": B,
     "moment": B + ("ORG", "ORD"), "point_charge": B + ("NUCC", "CHG"), "nuclear": B + ("NUCC", "CHG"),
     "eri": ("S1", "S3"), "eval_basis": B + ("PTS",), "eval_deriv": B + ("PTS", "ORD"), "eval_deriv_direct": B + ("PTS",),
-    "overlap_lincomb": B + ("TRF",),
+    "overlap_lincomb": B + ("TRF",), "overlap_screened0": B,
+    # a points array holding ONE point (numpy helpers such as ascontiguousarray copy only when they have to)
+    "eval_deriv_direct1": B + ("PT1",), "gradient_direct1": B + ("DM", "PT1"), "eval_basis1": B + ("PT1",), "esp1": B + ("DM", "PT1", "NUCC", "CHG"),
     "density": B + ("DM", "PTS"), "gradient": B + ("DM", "PTS"), "laplacian": B + ("DM", "PTS"), "hessian": B + ("DM", "PTS"),
     "posdef_ke": B + ("DM", "PTS"), "general_ke": B + ("DM", "PTS"), "stress": B + ("DM", "PTS"), "force": B + ("DM", "PTS"),
     "ehess": B + ("DM", "PTS"), "esp": B + ("DM", "PTS", "NUCC", "CHG"),
@@ -112,6 +114,7 @@ class World:
         A = rng_matrix(rng, nb, nb)
         self.atab = {
             "PTS": [rng_matrix(rng, 4, 3) * 1.5 for _ in range(MAXV)],
+            "PT1": [rng_matrix(rng, 1, 3) * 1.5 for _ in range(MAXV)],
             # symmetric only up to noise the library's own np.allclose test accepts (not bit for bit)
             "DM": [(lambda a, e: a @ a.T + 1e-10 * (e - e.T))(rng_matrix(rng, nb, nb), rng_matrix(rng, nb, nb)) for _ in range(MAXV)],
             "CHG": [np.array([rng.uniform(0.5, 3.0) for _ in range(2)]) for _ in range(MAXV)],
@@ -189,6 +192,11 @@ class World:
         table = {
             "overlap": lambda: m("gbasis.integrals.overlap").overlap_integral(b),
             "overlap_screened": lambda: m("gbasis.integrals.overlap").overlap_integral(b, tol_screen=1e-3),
+            "overlap_screened0": lambda: m("gbasis.integrals.overlap").overlap_integral(b, tol_screen=0.0),
+            "eval_deriv_direct1": lambda: m("gbasis.evals.eval_deriv").evaluate_deriv_basis(b, o["PT1"], np.array([1, 0, 0]), deriv_type="direct"),
+            "gradient_direct1": lambda: m(D).evaluate_density_gradient(o["DM"], b, o["PT1"], deriv_type="direct"),
+            "eval_basis1": lambda: m("gbasis.evals.eval").evaluate_basis(b, o["PT1"]),
+            "esp1": lambda: m("gbasis.evals.electrostatic_potential").electrostatic_potential(b, o["DM"], o["PT1"], o["NUCC"], o["CHG"]),
             "overlap_asym": lambda: m("gbasis.integrals.overlap_asymm").overlap_integral_asymmetric(b[:2], b[1:]),
             "overlap_lincomb": lambda: m("gbasis.integrals.overlap").overlap_integral(b, transform=o["TRF"]),
             "kinetic": lambda: m("gbasis.integrals.kinetic_energy").kinetic_energy_integral(b),
